@@ -89,12 +89,18 @@ func guardSources(v ssa.Value, d int, out map[string]bool) {
 func GuardScope(p *core.Prog, r *core.Report) {
 	const rule = "GUARD-SCOPE"
 	scope := map[string]*regexp.Regexp{}
-	for _, g := range guardScopes {
+	guards := append([]guardScope{}, guardScopes...)
+	for k := range guards {
+		if guards[k].guard == "skipSchemataResult" {
+			guards[k].guard = skipSchemataField // the field WithSkipSchemataResult sets, whatever it is called
+		}
+	}
+	for _, g := range guards {
 		scope[g.guard] = regexp.MustCompile(g.allowed)
 	}
 	type use struct{ ok, bad []string }
 	uses := map[string]*use{}
-	for _, g := range guardScopes {
+	for _, g := range guards {
 		uses[g.guard] = &use{}
 	}
 	nGuards := 0
@@ -156,7 +162,7 @@ func GuardScope(p *core.Prog, r *core.Report) {
 			}
 		})
 	}
-	for _, g := range guardScopes {
+	for _, g := range guards {
 		u := uses[g.guard]
 		sort.Strings(u.bad)
 		if len(u.bad) > 0 {
